@@ -168,6 +168,11 @@ class Facts:
 
 
 def load():
+    dev = os.environ.get('VERIF_DEV_FACTS')   # development only: analyse an already extracted fact set (never used by registered commands)
+    if dev:
+        f = Facts(dev, os.path.basename(dev))
+        f.info = {'cached': True, 'dev': True}
+        return f
     fdir, key, info = ensure_facts()
     f = Facts(fdir, key)
     f.info = info
